@@ -102,6 +102,10 @@ type Node struct {
 	Accepted      int
 	// scripted SCAN: cursor -> (next cursor, keys)
 	ScanChain map[string]ScanStep
+	// ScanLater, when set for a cursor, holds the answers to the second, third ... call with that cursor (the
+	// first call is answered from ScanChain, calls past the list get its last entry)
+	ScanLater map[string][]ScanStep
+	scanCalls map[string]int
 	// BadReplies, when non-nil, maps a lower-case command name to raw bytes sent instead of the real reply.
 	BadReplies map[string][]byte
 	// RefuseOnce maps a lower-case command name to raw bytes with which the next such command is answered without
@@ -232,6 +236,14 @@ func (c *Cluster) UseHostnames() {
 	for _, n := range c.Nodes {
 		n.ListenAddr = n.Addr
 		n.Addr = "redis-" + n.ID + ".local:6379"
+	}
+}
+
+// ShareOneMachine puts every node on one IP address, each on its own port (several instances per machine).
+// Call before Start.
+func (c *Cluster) ShareOneMachine() {
+	for i, n := range c.Nodes {
+		n.Addr = fmt.Sprintf("10.0.0.1:%d", 7000+i)
 	}
 }
 
@@ -483,6 +495,18 @@ func (n *Node) scan(args [][]byte) resp.Value {
 		return resp.Array(resp.BulkS("0"), resp.Array(ks...))
 	}
 	st, ok := n.ScanChain[cur]
+	if later := n.ScanLater[cur]; ok && len(later) > 0 {
+		if n.scanCalls == nil {
+			n.scanCalls = map[string]int{}
+		}
+		if i := n.scanCalls[cur]; i > 0 {
+			if i > len(later) {
+				i = len(later)
+			}
+			st = later[i-1]
+		}
+		n.scanCalls[cur]++
+	}
 	if !ok {
 		// like a real node, a cursor that it never handed out is not an error: it is taken as some position of
 		// the keyspace, and some keys come back (here: what a scan from the start returns)
